@@ -440,29 +440,25 @@ func sameAsResolved(calls []spec.Call, i int) spec.Call {
 	b := calls[*c.SameAs]
 	b.SameAs = nil
 	if len(c.EditSizes) > 0 && b.Opts.Sizes != nil {
-		var out []spec.NodeSize
-		done := map[string]bool{}
-		for _, s := range b.Opts.Sizes {
-			keep := true
-			for _, e := range c.EditSizes {
-				if e.ID == s.ID {
-					done[e.ID] = true
-					if e.W < 0 {
-						keep = false
-					} else {
-						s.W, s.H = e.W, e.H
-					}
-				}
-			}
-			if keep {
-				out = append(out, s)
-			}
-		}
+		// the edits are applied one after the other, exactly as the worker applies them to the caller's map
+		out := append([]spec.NodeSize{}, b.Opts.Sizes...)
 		for _, e := range c.EditSizes {
-			if !done[e.ID] && e.W >= 0 {
-				out = append(out, e)
-				done[e.ID] = true
+			found := false
+			var next []spec.NodeSize
+			for _, x := range out {
+				if x.ID == e.ID {
+					found = true
+					if e.W < 0 {
+						continue // deleted (every occurrence: the map has one entry per id)
+					}
+					x.W, x.H = e.W, e.H
+				}
+				next = append(next, x)
 			}
+			if !found && e.W >= 0 {
+				next = append(next, e)
+			}
+			out = next
 		}
 		if out == nil {
 			out = []spec.NodeSize{}
@@ -515,7 +511,14 @@ func (cx *Ctx) c07Histories(r *rng, n int, gc genCfg) map[string]any {
 						}
 						c.EditSizes = append(c.EditSizes, e)
 					}
-					nEdited++
+					tc := c
+					tc.SameAs = iptr(0)
+					if t := sameAsResolved([]spec.Call{under, tc}, 1); len(t.Opts.Sizes) == 0 {
+						// an emptied map is still passed (WithNodeSize of an empty map), which a spec with no sizes cannot say
+						c.EditSizes = nil
+					} else {
+						nEdited++
+					}
 				} else if len(under.Edges) >= 2 && r.chance(15) {
 					// ... or rewires its edge list in place (same backing arrays, other strings)
 					ee := deepCopyEdges(under.Edges)
